@@ -215,6 +215,9 @@ var c02Attrs = []string{
 	` title=t`, ` title="<x>"`, ` onclick=x`, ` name=n`, ` name=7`,
 	` data-x=1`, ` data-xmlfoo=1`, ` data-x;=1`, ` data-data-;x=1`, ` data-a"b<c=1`, ` data-=1`, ` data-data-xmlq=1`, ` xdata-y=1`, ` aria-data-x=1`,
 	` style="color:red"`, ` href="javascript:x"`, ` href=/ok`, ` lang=en`,
+	// values that match the element patterns of the policies (a rule must judge values by its value pattern, not by
+	// whatever other regexp the builder had at hand)
+	` id=my-x`, ` name=my-xy`,
 }
 
 var c02Elements = []string{"span", "a", "my-x", "my-xy", "my-y", "q"}
